@@ -128,7 +128,7 @@ theorem analyzeLoop_noReturn (s : Rebuild w) (ps : List (Rebuild w)) (sub : Rebu
   · rename_i h0
     right
     refine ⟨by simpa using h0, ?_⟩
-    first | rfl | rw [if_pos hnr]
+    rfl
 
 /-- In every case: `never` means the initial value is zero, `atLeastOnce` that it is not. -/
 theorem analyzeLoop_entry (s : Rebuild w) (ps : List (Rebuild w)) (sub : Rebuild w)
